@@ -289,7 +289,13 @@ func c45worker(run *ev.Run, maxPool int) {
 			ev.Fatal("scripted block: %v", err)
 		}
 		if n := noncesOf(b1); n[0] != noncesOf(w.Genesis)[0]+1 {
-			ev.Fatal("scripted block did not include the send: nonces %v", n)
+			if !tight {
+				ev.Fatal("scripted block did not include the send: nonces %v", n)
+			}
+			// the tight cost limit left no room for the scripted send (cannot happen on the unchanged
+			// tree: round 1 built-ins cost 1956 of 2950): nothing to explore in this configuration
+			so.Capped = "tight-cost-limit configuration: the scripted round-1 block could not include its transaction"
+			writeShard(so)
 		}
 		prevs = append(prevs, prev{Name: "round1(ok(c0))", Block: b1, Ancestors: []*block.Block{b1}, Nonces: noncesOf(b1), Round: 2})
 	}
